@@ -22,5 +22,9 @@ Patterns == { PAnd(<<I("a")>>), PAnd(<<T("a", 1, 2)>>), PAnd(<<T("a", 2, 2)>>), 
 ASSUME \A P \in Patterns : ~Nullable(P)
 Bodies == { <<m, <<>> >> : m \in {"a", "b", "c"} }
 Listings == ListingsOver(Bodies, 0, MaxListing)
-Universe == [patterns |-> SetToSeq(Patterns), listings |-> SetToSeq(Listings)]
+\* a relocatable object with several code sections: every section starts at address 0, so identical
+\* (address, instruction) records occur more than once -- each occurrence is its own match
+DupAddr(body) == [n \in DOMAIN body |-> Ins(<<"0", "4", "8", "0", "4", "8">>[n], body[n][1], body[n][2])]
+DupListings == { DupAddr(s \o s) : s \in SeqsBetween(Bodies, 2, 3) }
+Universe == [patterns |-> SetToSeq(Patterns), listings |-> SetToSeq(Listings \cup DupListings)]
 =============================================================================
